@@ -178,6 +178,19 @@ def run(ctx):
             if min(fits) < floor_ or min(pens) < floor_:
                 dist["degenerate_criterion"] = dist.get("degenerate_criterion", 0) + 1
                 return True
+        elif c.get("robust"):
+            # robust mode: the lambda is decided among the best score of the first scan and the scores of the second (reweighted) scan;
+            # scores at rounding-noise level (the weighted cells are fitted exactly, e.g. a constant series whose only deviating cell was
+            # weighted out) are all tied with one another
+            cand = wc.gcv_robust_candidates(y, valid, c["llas"])
+            if cand is None:
+                return False
+            sc = sorted(v_ for v_, _ in cand)
+            noise = 1e-18 * max(1.0, float(np.sum(valid * y * y)))
+            if sc[0] <= noise:
+                dist["degenerate_criterion"] = dist.get("degenerate_criterion", 0) + 1
+                return True
+            return len(sc) > 1 and (sc[1] - sc[0]) <= 1e-6 * abs(sc[0])
         else:
             v = wc.gcv_float(y, valid, c["llas"])
         s = sorted(v)
